@@ -137,10 +137,20 @@ class Ctx(object):
             else:
                 unlisted.append(o)
         out = []
+        printed = set()
         for o in listed:
+            if o.key() in printed:
+                continue
+            printed.add(o.key())
             out.append(
-                "KNOWN-FINDING: property={} {} {}:{} `{}` {}".format(
-                    self.prop, o.rule, o.module, o.function, o.construct, o.msg
+                "KNOWN-FINDING: property={} {} {}:{} `{}` {} | {}".format(
+                    self.prop,
+                    o.rule,
+                    o.module,
+                    o.function,
+                    o.construct,
+                    known[o.key()].get("what", ""),
+                    o.msg,
                 )
             )
         stale = [k for k in known if k not in seen_known]
